@@ -67,6 +67,18 @@ func (c chainSpec) build(act M, remote map[string]M) int {
 			}
 			node = d
 			remote[id] = node
+		case "mention-href":
+			// a Link-derived value is identified by its href when it has no id
+			node = M{"type": "Mention", "href": id, "name": "@x"}
+			cur[h.link] = node
+		case "link-id-href":
+			// id and href disagree: the id is the value's identity; an owned href must not count
+			other := "https://l.example/n/owned-decoy"
+			if c.owned {
+				other = "https://r1.example/chain/decoy"
+			}
+			node = M{"type": "Link", "id": id, "href": other}
+			cur[h.link] = node
 		case "iri-missing":
 			cur[h.link] = id // nothing registered
 			if !(last && c.owned) {
@@ -158,6 +170,16 @@ func c17chains(maxDepth int) []chainSpec {
 			out = append(out, chainSpec{hops: []hop{{"tag", f}}, owned: true, sibling: sib})
 		}
 	}
+	// the final value spelled as a Link-derived value: Mention named by href only, Link whose id and href disagree
+	for _, lf := range []string{"mention-href", "link-id-href"} {
+		for _, owned := range []bool{true, false} {
+			for _, l := range linkNames {
+				out = append(out, chainSpec{hops: []hop{{l, lf}}, owned: owned})
+			}
+			out = append(out, chainSpec{hops: []hop{{"object", "embedded"}, {"tag", lf}}, owned: owned},
+				chainSpec{hops: []hop{{"inReplyTo", "iri"}, {"tag", lf}}, owned: owned})
+		}
+	}
 	out = append(out, chainSpec{hops: []hop{{"object", "embedded"}}, owned: true, hidden: true},
 		chainSpec{hops: []hop{{"inReplyTo", "iri"}, {"object", "embedded"}}, owned: true, hidden: true})
 	return out
@@ -212,7 +234,7 @@ func C17(tier string) int {
 			}
 		}
 	}
-	res.Rule = fmt.Sprintf("activities whose to/cc/audience hold every sequence of <= %d entries over {owned Collection, owned OrderedCollection, foreign collection, owned non-collection, remote actor}; reply chains of depth 0..%d through inReplyTo/object/target/tag with every embedded / dereferenced-IRI form per link, the final value owned or not, plus chains broken by a missing or unknown-type document; depth limit %v; filter {all, first only, none}; delivery histories {A, AA, AB, BAA, ABA} over two local inboxes; %d histories, each a sequence of real requests on one application state; oracle: forwarded (once, on the first delivery) iff an owned (Ordered)Collection is addressed and an owned value lies within the limit; recipients are the members of exactly the collections the filter returned; payload equals the received body; the activity is recorded exactly once; states = distinct application states reached, transitions = requests", maxAddr, maxDepth, limits, len(cases))
+	res.Rule = fmt.Sprintf("activities whose to/cc/audience hold every sequence of <= %d entries over {owned Collection, owned OrderedCollection, foreign collection, owned non-collection, remote actor}; reply chains of depth 0..%d through inReplyTo/object/target/tag with every embedded / dereferenced-IRI form per link, the final value owned or not, plus chains broken by a missing or unknown-type document, and chains ending in a Link-derived value (Mention named by href only; Link whose id and href disagree, the owned one being the id or only the href); depth limit %v; filter {all, first only, none}; delivery histories {A, AA, AB, BAA, ABA} over two local inboxes; %d histories, each a sequence of real requests on one application state; oracle: forwarded (once, on the first delivery) iff an owned (Ordered)Collection is addressed and an owned value lies within the limit; recipients are the members of exactly the collections the filter returned; payload equals the received body; the activity is recorded exactly once; states = distinct application states reached, transitions = requests", maxAddr, maxDepth, limits, len(cases))
 	res.Assumptions = []string{"locks are counted, not blocking (a collection addressed twice is C09's known finding)", "a dereferenced document that is not JSON aborts the search with an error and is left to C11"}
 	var mu sync.Mutex
 	states := map[uint64]struct{}{}
